@@ -2,6 +2,7 @@ package nitrocheck
 
 import (
 	"os"
+	"runtime"
 	"testing"
 
 	"github.com/couchbase/nitro"
@@ -202,6 +203,16 @@ func TestC05(t *testing.T) {
 // further operations (WalkStore), on top of the round trip itself.
 func TestC14Store(t *testing.T) {
 	rapid.Check(t, backupProp(ev.Get("C14", "TestC14Store")))
+}
+
+// C05 on a machine with one CPU: StoreToDisk partitions into runtime.NumCPU() shards, so the single-shard
+// path of the backup is only reachable when the process sees one CPU. The driver runs this test under
+// `taskset -c 0`; without that it skips.
+func TestC05OneCPU(t *testing.T) {
+	if runtime.NumCPU() != 1 {
+		t.Skip("needs a process restricted to one CPU (taskset -c 0)")
+	}
+	rapid.Check(t, backupProp(ev.Get("C05", "TestC05OneCPU")))
 }
 
 func backupProp(st *ev.Stats) func(t *rapid.T) {
